@@ -207,6 +207,100 @@ def check_normalize(run):
         run.tie_broken(relation, case=rows[idx][1])
 
 
+RESOLVE_HEADER = """From Coq Require Import List Arith Bool.
+Import ListNotations.
+From LCC Require Import Base.Util Model.Proj Model.Fixture Model.Deps Model.DepsPred.
+Definition hk0 := mkHooks None None None None.
+Definition row_eqb (a b : path * list path) : bool := path_eqb (fst a) (fst b) && list_eqb path_eqb (snd a) (snd b).
+(* observation: 0 = accepted with these resolved dependencies; 1 = unknown; 2 = circular; 3 = not going to be run *)
+Definition agrees (c : list suite * list (path * list ddep) * (nat * list (path * list path))) : bool :=
+  let '(suites, table, (code, rows)) := c in
+  let decl := fun p => match dict_find table p with Some l => l | None => [] end in
+  let P := expand_project decl suites in
+  match resolve_tests_dependencies P P with
+  | Ok l => Nat.eqb code 0 && list_eqb row_eqb l rows
+  | Err (ValidationError RDepUnknown) => Nat.eqb code 1
+  | Err (ValidationError RDepCircular) => Nat.eqb code 2
+  | Err (ValidationError RDepNotScheduled) => Nat.eqb code 3
+  | Err _ => false
+  end.
+"""
+
+
+def check_expand_project(run):
+    """Whole forests whose tests declare their dependencies by paths and predicates: the real resolve_tests_dependencies against
+    Deps.resolve_tests_dependencies of DepsPred.expand_project (the composition the theorems C04_unknown_dependency_comes_from_a_path
+    and C04_self_edge_comes_from_a_path are about)."""
+    import lib
+    import projcoq
+    from lemoncheesecake.suite import core
+    from lemoncheesecake.testtree import flatten_tests_as_dict
+    from lemoncheesecake.exceptions import ValidationError
+    n = 150 if run.tier == "quick" else 4000
+    rows = []
+
+    def c_suite(s):
+        return "Suite %s false hk0 [] %s %s" % (projcoq.c_name(s.name),
+                                                  lib.c_list(s.get_tests(), lambda t: "mkTest %s false [] [] [] []" % projcoq.c_name(t.name)),
+                                                  lib.c_list(s.get_suites(), c_suite))
+    for i in range(n):
+        suites = gen_forest(run.rng)
+        all_tests = flatten_tests_as_dict(suites)
+        keys = list(all_tests.keys())
+        table = []
+        mostly_backward = run.rng.random() < 0.6          # acyclic most of the time: dependencies on earlier tests
+        for k, p in enumerate(keys):
+            decl, real = [], []
+            for _ in range(run.rng.choice([0, 0, 1, 1, 2])):
+                pool = keys[:k] if (mostly_backward and k) else keys
+                r = run.rng.random()
+                if r < 0.35:
+                    q = run.rng.choice(pool)
+                    decl.append(("path", q)); real.append(q)
+                elif r < 0.40:
+                    decl.append(("path", "s1.t1")); real.append("s1.t1")
+                else:
+                    ext = [q for q in pool if run.rng.random() < 0.35]
+                    if run.rng.random() < 0.5:
+                        ext.append(p)
+                    run.rng.shuffle(ext)
+                    decl.append(("pred", ext)); real.append(lambda t, ext=frozenset(ext): t.path in ext)
+            all_tests[p].dependencies = real
+            if decl:
+                table.append((p, decl))
+        try:
+            core.resolve_tests_dependencies(suites, suites)
+            code, res = 0, [(p, [d.path for d in t.resolved_dependencies]) for p, t in all_tests.items()]
+        except ValidationError as e:
+            msg = str(e)
+            code, res = (1 if "Cannot find dependency test" in msg else 2 if "circular" in msg else 3 if "not going to be run" in msg else 9), []
+        run.evaluations += 1
+        run.count("expand_project_cases")
+        run.count("expand_project_outcome:%d" % code)
+        if code == 0 and sum(1 for _, d in table for x in d if x[0] == "pred") >= 2:
+            run.nontrivial.add("exp%d" % i)
+        # the composition theorem, on what the implementation did: an unknown dependency needs an unknown path in some declaration
+        if code == 1 and not any(x[0] == "path" and x[1] not in all_tests for _, d in table for x in d):
+            run.violation("oracle:unknown-dependency-without-an-unknown-path", "rejected for an unknown dependency although every "
+                          "declared path is a test of the project", {"keys": keys, "declared": table})
+        c_table = lib.c_list(table, lambda r: "(%s, %s)" % (projcoq.c_pathstr(r[0]), lib.c_list(
+            r[1], lambda d: "DPath %s" % projcoq.c_pathstr(d[1]) if d[0] == "path" else "DPred %s" % lib.c_list(d[1], projcoq.c_pathstr))))
+        c_rows = lib.c_list(res, lambda r: "(%s, %s)" % (projcoq.c_pathstr(r[0]), lib.c_list(r[1], projcoq.c_pathstr)))
+        rows.append(("(%s, %s, (%d, %s))" % (lib.c_list(suites, c_suite), c_table, code, c_rows),
+                     {"keys": keys, "declared": table, "code": code, "resolved": res}))
+    if not run.model_ok or not rows:
+        return
+    text = RESOLVE_HEADER + ("Definition cases : list (list suite * list (path * list ddep) * (nat * list (path * list path))) := [\n%s ].\n"
+                             % ";\n".join(r[0] for r in rows)) + "Eval vm_compute in (find_indexes (fun c => negb (agrees c)) cases).\n"
+    rc, out = run.coq_eval("expandproject", text)
+    bad = lib.parse_nat_list(out) if rc == 0 else None
+    relation = "Deps.resolve_tests_dependencies (DepsPred.expand_project decl suites) = the real resolve_tests_dependencies on declared paths and predicates"
+    if bad is None:
+        run.tie_broken(relation, detail="case file did not evaluate: " + out[-1200:])
+    for idx in (bad or [])[:2]:
+        run.tie_broken(relation, case=rows[idx][1])
+
+
 def _is_subsequence(a, b):
     it = iter(b)
     return all(x in it for x in a)
@@ -248,6 +342,7 @@ def check(run):
     results = propcommon.run_cases(run, cases, runoracle.c04_oracle, nontrivial)
     check_resolution(run, cases, results)
     check_normalize(run)
+    check_expand_project(run)
     # a dependency that neither succeeded nor failed: its body left through a BaseException (sys.exit()); its task ends with an
     # exception result and everything that depends on it -- over any number of hops -- must be skipped all the same
     base = engine.gen_cases(run, 30 if run.tier == "quick" else 500,
